@@ -262,6 +262,10 @@ def run_scenario(sc, rng, raising=None, extra_handlers=None, kind="function"):
             elif sc["acc"] == "abort":
                 a.abort()
 
+        if not assoc.is_established and not sc["reject"] and not assoc.is_rejected:
+            # the scenario is about an established association: with tiny timeouts on a loaded machine the negotiation
+            # itself can time out.  Not a verdict on the property - run_many re-runs it alone with longer timeouts.
+            res["inconclusive"] = "association not established (not rejected either)"
         th = threading.Thread(target=acc_user, daemon=True)
         th.start()
         echo_status = []
@@ -355,11 +359,28 @@ def make_raising(spec):
     return pred
 
 
+def load_factor():
+    """How much longer than on an idle machine things may take right now: 1 on an idle machine, up to 6.
+    Timeouts of scenarios are multiplied by it, so that a check run next to other work (other checks, a test
+    suite) judges pynetdicom and not the scheduler."""
+    import os
+
+    try:
+        per_core = os.getloadavg()[0] / (os.cpu_count() or 1)
+    except OSError:
+        return 1.0
+    return max(1.0, min(6.0, 1.0 + 3.0 * max(0.0, per_core - 0.25)))
+
+
 def run_many(scenarios, seed, workers=8, raising_specs=None):
     """run scenarios in parallel processes; deterministic per-scenario seeds derived from `seed`.
     The pool is terminated afterwards (a hung scenario leaves spinning non-daemon threads behind)."""
     import multiprocessing as mp
 
+    lf = load_factor()
+    if lf > 1.05:
+        scenarios = [dict(sc, timeouts=round(sc.get("timeouts", 1.0) * lf, 2)) for sc in scenarios]
+        workers = max(2, int(workers / lf))
     jobs = [
         (sc, (seed * 1000003 + i) & 0x7FFFFFFF, None if raising_specs is None else raising_specs[i])
         for i, sc in enumerate(scenarios)
@@ -367,7 +388,24 @@ def run_many(scenarios, seed, workers=8, raising_specs=None):
     ctx = mp.get_context("fork")
     pool = ctx.Pool(processes=workers, maxtasksperchild=40)
     try:
-        return pool.map(_worker, jobs, chunksize=1)
+        results = pool.map(_worker, jobs, chunksize=1)
     finally:
         pool.terminate()
         pool.join()
+    # scenarios that could not even establish their association (load): once more, one at a time, 4 x the timeouts.
+    # If they still cannot, the result stays marked and the caller reports it (a change that breaks establishment
+    # must not go unnoticed).
+    again = [i for i, r in enumerate(results) if r.get("inconclusive")]
+    if again:
+        pool = ctx.Pool(processes=1, maxtasksperchild=1)
+        try:
+            for i in again[:40]:
+                sc, sd, spec = jobs[i]
+                sc2 = dict(sc, timeouts=max(2.0, 4 * sc.get("timeouts", 1.0)))
+                r2 = pool.apply(_worker, ((sc2, sd, spec),))
+                r2["rerun_of"] = sc
+                results[i] = r2
+        finally:
+            pool.terminate()
+            pool.join()
+    return results
